@@ -265,13 +265,15 @@ Fixpoint remove_first (o : oid) (l : list oid) : list oid :=
   | x :: r => if Nat.eqb x o then r else x :: remove_first o r
   end.
 
-(* remove(delete): pop the cache entry of delete.number; list.remove takes out the first member
-   that EQUALS delete (ValueError if none); __evict drops the entries that point at delete itself *)
+(* remove(delete): idx = self._objects.index(delete) is the first member that EQUALS delete
+   (ValueError if none, nothing touched); the cache entry of that member's number is popped, the
+   member is deleted by position, __evict drops the entries that point at that member (fix:) *)
 Definition remove (s : st) (x : oid) : st * res :=
-  let c1 := cache_pop (cache s) (num s x) in
   match find_eq s x with
-  | Some e => (set_objs (set_cache s (cache_evict c1 x)) (remove_first e (objs s)), ROk)
-  | None => (set_cache s c1, RErr ValueErr)
+  | Some e =>
+      (set_objs (set_cache s (cache_evict (cache_pop (cache s) (num s e)) e))
+                (remove_first e (objs s)), ROk)
+  | None => (s, RErr ValueErr)
   end.
 
 Fixpoint remove_nth {A} (n : nat) (l : list A) : list A :=
@@ -406,9 +408,11 @@ Definition step (s : st) (o : op) : st * res :=
   | SliceAppend a b c x => slice_append s a b c x
   end.
 
-(* premises of the invariant theorem, as booleans (Proofs/CollProofs.v: op_okb_spec):
+(* premise of the invariant theorem, as a boolean (Proofs/CollProofs.v: op_okb_spec):
    [setnum_seen]: the setter of a member validates against this collection, or the object is not a
-   member, or the number is free;  [remove_same]: remove(x) takes out x itself, or nothing *)
+   member, or the number is free.
+   [remove_same] (remove(x) takes out x itself, or nothing) is no premise any more; the wire
+   reports it so that the harness can count how often remove() was given an equal object *)
 Definition setnum_seen (s : st) (x : oid) (n : Z) : bool :=
   match olink s x with LThis => true | _ => false end
   || negb (mem_o x (objs s)) || negb (mem_Z n (numbers_of s)).
@@ -417,7 +421,6 @@ Definition remove_same (s : st) (x : oid) : bool :=
 Definition op_okb (s : st) (o : op) : bool :=
   match o with
   | SetNum x n => setnum_seen s x n
-  | Remove x => remove_same s x
   | _ => true
   end.
 
@@ -447,7 +450,8 @@ Definition init (l : list oid) (numf : oid -> Z) (kf : oid -> nat) (lk : oid -> 
    response = one result per op joined by ';', then '|' members '|' cache (sorted by caller)
               '|' links of all objects '|' foreign members
               '|' positions of the SetNum operations outside the premise setnum_seen
-              '|' positions of the Remove operations outside the premise remove_same *)
+              '|' positions of the Remove operations that were given an equal object which is not
+                  the member (remove_same false) *)
 
 Definition show_err (e : err) : string :=
   match e with
@@ -521,7 +525,8 @@ Fixpoint premise_breaks (sel : op -> bool) (s : st) (ops : list op) (i : nat) : 
   | [] => []
   | o :: r =>
       let rest := premise_breaks sel (fst (step s o)) r (S i) in
-      if sel o && negb (op_okb s o) then i :: rest else rest
+      if sel o && negb (match o with Remove x => remove_same s x | _ => op_okb s o end)
+      then i :: rest else rest
   end.
 Definition is_setnum (o : op) : bool := match o with SetNum _ _ => true | _ => false end.
 Definition is_remove (o : op) : bool := match o with Remove _ => true | _ => false end.
